@@ -61,6 +61,8 @@ static const uint8_t PER_MESSAGE_COMPRESSED_BIT = 0x4;
 #define WS_PING_FRAME 0x9
 #define WS_PONG_FRAME 0x0a
 
+#define WS_MIN_COMPRESS_LENGTH 16
+
 static void unmask_payload(uint8_t *buffer, size_t length, uint8_t *mask)
 {
 	uint_fast32_t aligned_mask;
@@ -938,9 +940,21 @@ static int send_frame(const struct websocket *s, uint8_t *payload, size_t length
 		return -1;
 	}
 
-	if (s->extension_compression.accepted && (type < WS_CLOSE_FRAME)) {
+	/*
+	 * websocket_compress() works with 2 * length bytes of room. For very short payloads that is less than deflate's
+	 * worst case; those are sent uncompressed, which RFC 7692 allows per message.
+	 */
+	if (s->extension_compression.accepted && (type < WS_CLOSE_FRAME) && (length >= WS_MIN_COMPRESS_LENGTH)) {
 		payload_comp = malloc(length * 2);
-		length_comp = websocket_compress(s, payload_comp, payload, length);
+		if (unlikely(payload_comp == NULL)) {
+			return -1;
+		}
+		int ret_comp = websocket_compress(s, payload_comp, payload, length);
+		if (unlikely(ret_comp < 0)) {
+			free(payload_comp);
+			return -1;
+		}
+		length_comp = (size_t)ret_comp;
 		rsv = 0x40;
 		payload_ptr = payload_comp;
 	}
@@ -978,9 +992,7 @@ static int send_frame(const struct websocket *s, uint8_t *payload, size_t length
 
 	struct buffered_reader *br = &s->connection->br;
 	int ret =  br->writev(br->this_ptr, iov, ARRAY_SIZE(iov));
-	if (s->extension_compression.accepted && (type < WS_CLOSE_FRAME)) {
-		free(payload_comp);
-	}
+	free(payload_comp);
 	return ret;
 }
 
